@@ -276,10 +276,10 @@ def run_layout(case, drv) -> Outcome:
         t = torch.tensor([rng.uniform(-8, 8) for _ in range(math.prod(shape))], dtype=torch.float32).reshape(shape)
         comps.append(t if sub else torch.zeros(1, 1, 1, 1))
     d_enc = sum(1 for sub in subsets if sub)
-    # a direction that is the only one varying along some dimension and also varies along another dimension: the library multiplies a
-    # 1-D weight along the first dimension with whatever it computes along the second (known finding: counted twice)
+    # a direction that is the only one varying along some dimension and also varies along another dimension: the library as shipped
+    # multiplied a 1-D weight along the first dimension with whatever it computed along the second (counted twice; repaired in /repo)
     double = any(len(sub) >= 2 and any(all(d not in other for j, other in enumerate(subsets) if j != i) for d in sub) for i, sub in enumerate(subsets))
-    tag = 'double-counted' if double else case['pattern']
+    tag = 'formerly-double-counted' if double else case['pattern']
     cfg = f'layout {case["pattern"]} sizes (k2,k1,k0) {n} kz along {subsets[0]} ky along {subsets[1]} kx along {subsets[2]}'
     st, w = call(lambda: dcf_of(*comps))
     if st != 'ok':
